@@ -167,6 +167,15 @@ def _recipe1(draw, tier, focus):
     else:
         kind = draw(st.sampled_from(["override", "generic", "any", "any", "added_diag"]))
     dt = draw(st.sampled_from(["f64", "f64", "f32"]))
+    if kind == "large":
+        # sizes ABOVE the solver's fixed thresholds (10 warm-up iterations, the default 20-step quadrature budget, 10 probes):
+        # the tridiagonal matrices must still be complete (n rows) when the budget reaches n
+        nl = draw(st.sampled_from([12, 13, 14, 16, 18, 20]))
+        bl = draw(st.sampled_from([(), (), (2,)]))
+        cfgl = gen.Cfg(dt="f64", max_dim=20, exclude=ex, max_elems=2000)
+        if draw(st.booleans()):
+            return gen.mk_dense(draw, cfgl, "pd", nl, nl, bl, 1)
+        return {"op": "AddedDiag", "args": [gen.mk_dense(draw, cfgl, "psd", nl, nl, bl, 1), gen.mk_diag(draw, cfgl, "pd", nl, nl, bl, 1)]}
     if kind == "override":
         heads = [h for h in OVERRIDE_HEADS + ["Kronecker", "Kronecker", "BatchRepeat", "Chol"] if h not in ex and ("has_" + h) not in trig]
         head = draw(st.sampled_from(heads))
@@ -300,6 +309,10 @@ def cases(draw, tier):
         options = [o for o in options if clean(o)] or [("inv_quad", "matrix", False)]
     if focus == "slq" and any(o[2] for o in options):
         options = [o for o in options if o[2]]
+    if n > 8:
+        # the large cases exist for the log-determinant quadrature (complete tridiagonal matrices); their CG solves sit at
+        # linear_cg's 1e-10 residual floor (C08), which the inv_quad bound derived for n <= 6 does not model
+        options = [o for o in options if o[1] is None] or [("logdet", None, True)]
     entry, kind, ldf = draw(st.sampled_from(options))
     case = {"recipe": r, "entry": entry}
     if kind is not None:
